@@ -7,6 +7,7 @@ use std::io::Write;
 use std::process::{Command, Stdio};
 
 pub mod c03;
+pub mod c04;
 pub mod c07;
 pub mod c13;
 pub mod c14;
@@ -209,6 +210,27 @@ impl Report {
         });
     }
 
+    /// the union of two runs that serve the same property
+    pub fn merge(&mut self, other: Report) {
+        self.evaluations += other.evaluations;
+        self.nontrivial.extend(other.nontrivial);
+        self.rule = format!("{} || {}", self.rule, other.rule);
+        for s in other.samples {
+            self.samples.push(s);
+        }
+        self.traces_validated += other.traces_validated;
+        for (k, v) in other.ops {
+            *self.ops.entry(k).or_default() += v;
+        }
+        for (k, v) in other.classes {
+            *self.classes.entry(k).or_default() += v;
+        }
+        self.disagreements.extend(other.disagreements);
+        self.violations.extend(other.violations);
+        self.notes.extend(other.notes);
+        self.exhaustive = self.exhaustive && other.exhaustive;
+    }
+
     pub fn to_json(&self, opts: &Options) -> serde_json::Value {
         serde_json::json!({
             "property": opts.property,
@@ -318,7 +340,16 @@ pub fn main() {
     silence_panics();
     let report = match opts.property.as_str() {
         "C01" | "C11" | "C12" => prove::run(&opts, &opts.property.clone()),
-        "C03" => c03::run(&opts),
+        "C03" => {
+            // storage level (keyspace dumps against the Index model) + the delivery path: a full
+            // client on a growing chain against the ground truth
+            let mut r = c03::run(&opts);
+            if opts.replay.is_none() {
+                r.merge(c04::run_mode(&opts, "C03"));
+            }
+            r
+        }
+        "C04" => c04::run(&opts),
         "C08" | "C09" => sync::run(&opts, &opts.property.clone()),
         "C07" => c07::run(&opts),
         "C13" => c13::run(&opts),
